@@ -156,7 +156,7 @@ def extra_evidence(results):
 # generation
 OPS_W = [("set", 24), ("get", 12), ("getd", 8), ("del", 8), ("pop", 5), ("popd", 5), ("popitem", 5),
          ("clear", 2), ("setdefault", 8), ("update", 7), ("ior", 3), ("eq", 3), ("eqself", 1), ("copy", 5),
-         ("len", 7), ("in", 8), ("or", 2), ("ror", 2), ("repr", 2)]
+         ("len", 7), ("in", 8), ("or", 2), ("ror", 2), ("repr", 2), ("ne", 2), ("copy2", 2)]
 
 
 def _gen_op(rng, nkeys, vctr):
@@ -174,7 +174,7 @@ def _gen_op(rng, nkeys, vctr):
         return [name, k]
     if name in ("getd", "popd", "setdefault"):
         return [name, k, v()]
-    if name in ("popitem", "clear", "eqself", "copy", "len", "or", "ror", "repr"):
+    if name in ("popitem", "clear", "eqself", "copy", "len", "or", "ror", "repr", "copy2"):
         return [name]
     if name in ("update", "ior"):
         ks = [rng.randrange(nkeys) for _ in range(rng.randint(0, 3))]
@@ -186,9 +186,9 @@ def _gen_op(rng, nkeys, vctr):
                 d[kk] = vv
             pairs = [[kk, vv] for kk, vv in d.items()]
         return [name, pairs, style]
-    if name == "eq":
+    if name in ("eq", "ne"):
         ks = rng.sample(range(nkeys), rng.randint(0, min(3, nkeys)))
-        return ["eq", [[kk, 1 + rng.randrange(6)] for kk in ks]]
+        return [name, [[kk, 1 + rng.randrange(6)] for kk in ks]]
     raise AssertionError(name)
 
 
@@ -231,7 +231,7 @@ def _sys_scheds(a, b):
 GRID_OPS = [["set", 0, 7], ["set", 2, 7], ["get", 0], ["get", 2], ["getd", 2, 9], ["del", 0], ["pop", 0], ["popd", 2, 5],
             ["popitem"], ["clear"], ["setdefault", 2, 9], ["setdefault", 0, 9], ["update", [[2, 7]], "list"],
             ["ior", [[2, 7]], "dict"], ["eq", [[0, 1], [1, 2]]], ["copy"], ["len"], ["in", 0], ["in", 2],
-            ["or"], ["ror"], ["repr"]]
+            ["or"], ["ror"], ["repr"], ["ne", [[0, 1], [1, 2]]], ["copy2"]]
 
 
 def _grid_case(rng, cap):
@@ -401,6 +401,12 @@ def _do_op(cache, op, miss_default=None):
     if name == "eq":
         r = (cache == _arg("dict", op[1]))
         return ["bool", 1 if r is True else 0] if isinstance(r, bool) else ["bad"]
+    if name == "ne":
+        r = (cache != _arg("dict", op[1]))
+        return ["bool", 1 if r is True else 0] if isinstance(r, bool) else ["bad"]
+    if name == "copy2":
+        import copy as _copy
+        return ["copy", _copy.copy(cache)]
     if name == "eqself":
         r = (cache == cache)
         return ["bool", 1 if r is True else 0] if isinstance(r, bool) else ["bad"]
@@ -629,6 +635,10 @@ def _op_coq(op):
         return "Ior %s" % _pairs(op[1])
     if n == "eq":
         return "EqDict %s" % _pairs(op[1])
+    if n == "ne":
+        return "NeDict %s" % _pairs(op[1])
+    if n == "copy2":
+        return "CopyCopy"
     if n == "eqself":
         return "EqSelf"
     if n == "copy":
